@@ -23,8 +23,8 @@ pub struct WrRun<'a> {
     /// replay every node's history on the real backends with every finisher
     pub real_backends: bool,
     pub check_counter: bool,
-    /// how many of the 24 (backend, finisher) combinations are replayed at the deepest level
-    /// (all 24 at every shallower node); the selection rotates with the node number
+    /// how many of the 28 (backend, finisher) combinations are replayed at the deepest level
+    /// (all 28 at every shallower node); the selection rotates with the node number
     pub leaf_combos: usize,
 }
 
@@ -169,7 +169,7 @@ pub fn explore(run: &WrRun) -> Outcome {
             for backend in REAL_BACKENDS {
                 for finisher in FINISHERS {
                     combo += 1;
-                    if is_leaf && run.leaf_combos < 24 && (combo + id as usize * 7) % 24 >= run.leaf_combos {
+                    if is_leaf && run.leaf_combos < 28 && (combo + id as usize * 7) % 28 >= run.leaf_combos {
                         continue;
                     }
                     out.cov.traces_validated += 1;
